@@ -237,6 +237,17 @@ func TestDictionary(t *testing.T) {
 	}
 }
 
+// TestConcurrent (variant "conc", -race): the same sequential oracles, with the
+// cases of a batch checked from 8 goroutines at once, so that hidden shared
+// state behind functions that look pure (pools, package-level buffers,
+// in-place edits) shows as a data race or a wrong result.
+func TestConcurrent(t *testing.T) {
+	if vp.Variant() != "conc" {
+		t.Skip("runs in the conc variant (-race)")
+	}
+	vp.RunConcurrent(t, nameProp, 150, 64, 8)
+}
+
 func TestName(t *testing.T)   { vp.Run(t, nameProp) }
 func TestLabel(t *testing.T)  { vp.Run(t, labelProp) }
 func TestReplay(t *testing.T) { vp.Replay(t) }
